@@ -201,6 +201,7 @@ def run(P, R, tier):
     modifydesc_rule(P, R)
     modifynew_rule(P, R)
     rawrange_rule(P, R)
+    mixorder_rule(P, R)
 
 
 def writes_store(s):
@@ -1038,3 +1039,27 @@ def rawrange_rule(P, R):
                         "Duplicate kinetics) copies it over the following entries again" % inst, file=g["file"], line=min(cps), function=g["q"])
     if n < 11:
         R.anchor_missing(RULE, "only %d instantiations of Rxn_read_raw found" % n)
+
+
+def mixorder_rule(P, R):
+    """"*_MIX ... read the current content": the *_MIX blocks of a simulation are requests that are carried out after the input has been
+    read, like COPY.  COPY keeps its requests in vectors and runs them in the order of the input; the *_MIX requests are kept in
+    Rxn_<kind>_mix_map.  A container that is ordered by the target number cannot reproduce the input order: `SOLUTION_MIX 3 <- 2` followed by
+    `SOLUTION_MIX 2 <- 1` runs 2 := 1 first, and solution 3 becomes a copy of solution 1.  The member types are read from class Phreeqc."""
+    RULE = "C14.mixorder"
+    R.rule(RULE, "the pending *_MIX requests are kept in a container that preserves the order of the input", minimum=7)
+    rec = P.records.get("Phreeqc")
+    n = 0
+    for fld in rec["fields"]:
+        nm = fld["name"]
+        if not (nm.startswith("Rxn_") and nm.endswith("_mix_map")) or nm == "Rxn_mix_map":      # Rxn_mix_map is the MIX store itself
+            continue
+        n += 1
+        ty = fld["type"]
+        if ty.replace(" ", "").startswith("std::map<int,"):
+            R.violation(RULE, nm, "%s is a %s: the requests of one simulation are carried out in the order of their target numbers, not of the input (a request that reads an "
+                        "entry which an earlier block of the same simulation was to replace sees the wrong content)" % (nm, ty), file=rec["file"], line=fld.get("line", rec["line"]))
+        else:
+            R.ok(RULE, nm, ty[:60])
+    if n < 7:
+        R.anchor_missing(RULE, "only %d *_mix_map members found in class Phreeqc" % n)
